@@ -112,10 +112,7 @@ def main(argv):
         fixed.append((exe, ["set=reflogs", "refdir=" + refdir]))
         res = enumcheck.run_jobs(fixed, timeout=1500)
         viol, infra, ev, di, samples = enumcheck.collect("C05", res, "h_file", "sched", accept_props={"C05", "C06", "C10"})
-        entries = []
-        for mf in glob.glob(os.path.join(d, "j*", "manifest.*.jsonl")):
-            for l in open(mf):
-                entries.append(json.loads(l))
+        entries = F.read_manifests(os.path.join(d, "j*", "manifest.*.jsonl"))
         seen = set()
         with ProcessPoolExecutor(driver.NCPU) as ex:
             for m, probs in zip(entries, ex.map(verify_file, entries, chunksize=64)):
